@@ -120,6 +120,12 @@ func (e Error) GoString() string {
 }
 
 func (e ottoError) describe(format string, in ...interface{}) string {
+	if len(in) == 0 {
+		// A message given on its own is text, not a format: it often holds
+		// text from the script (a parser error quoting the source), in which a
+		// '%' must stay what it is.
+		return format
+	}
 	return fmt.Sprintf(format, in...)
 }
 
@@ -279,11 +285,17 @@ func describeThrown(thrown Value) (err error) {
 		if vl, ok := obj.value.(ottoError); ok {
 			// Describe the error as it is when thrown: name and
 			// message may have been assigned after construction.
-			if name := obj.get("name"); name.IsString() {
+			// 15.11.4.4: ToString of name and of message, whatever their type;
+			// undefined stands for "Error" and for the empty string.
+			if name := obj.get("name"); name.IsDefined() {
 				vl.name = name.string()
+			} else {
+				vl.name = "Error"
 			}
-			if message := obj.get("message"); message.IsString() {
+			if message := obj.get("message"); message.IsDefined() {
 				vl.message = message.string()
+			} else {
+				vl.message = ""
 			}
 			return &Error{vl}
 		}
